@@ -1,4 +1,76 @@
-/- driver operations of C10 (stub: no model yet) -/
+import EvoModel.Model.Pairs
 namespace Evo.Drv.C10
-def handle (_op : String) (_args : List String) : Option String := none
+open Evo Evo.Pairs
+
+def showPairs (l : IdPairs) : String :=
+  if l.isEmpty then "-" else " ".intercalate (l.map fun p => s!"{p.1}:{p.2}")
+
+def showRes : Except Err IdPairs → String
+  | .error _ => "E_FILTER"
+  | .ok ps => showPairs ps
+
+/-- split the flattened upper triangle (`ang 0 1 … ang 0 (n−1), ang 1 2 …`) into rows -/
+def triRows : Nat → Nat → List Rat → List (Array Rat)
+  | 0, _, _ => []
+  | fuel + 1, len, l => (l.take len).toArray :: triRows fuel (len - 1) (l.drop len)
+
+def angOf (rows : Array (Array Rat)) (i j : Nat) : Rat :=
+  ((rows[i]?.getD #[])[j - (i + 1)]?).getD 0
+
+def parseBool? : String → Option Bool
+  | "0" => some false
+  | "1" => some true
+  | _ => none
+
+def parseUnit? : String → Option DUnit
+  | "f" => some .frames
+  | "m" => some .meters
+  | "rad" => some .radians
+  | "deg" => some .degrees
+  | "other" => some .other
+  | _ => none
+
+/-- common argument layout of every op:
+  `n pi δ t deg all  k steps…  k cang…  k tri…`
+(`t` = `tol` for the filter ops and `rel_tol` for `delta:*`; unused lists are sent empty).
+ops:
+  `acc`            → accumulated distances of `steps`
+  `index`          → `filter_pairs_by_index` with `int δ`
+  `path`           → `filter_pairs_by_path(δ, tol=t, all)`
+  `angle`          → `filter_pairs_by_angle(δ, tol=t, deg, all)` or `E_FILTER`
+  `delta:<unit>`   → `id_pairs_from_delta(δ, unit, rel_tol=t, all)` or `E_FILTER`
+  `mpath`, `mangle`→ smallest decision margin of the corresponding `path` / `angle` call
+pairs are printed as `i:j …`, the empty list as `-`. -/
+def handle (op : String) (args : List String) : Option String :=
+  match args with
+  | n :: pi :: δ :: t :: deg :: all :: rest => do
+      let n ← n.toNat?
+      let pi ← parseRat? pi
+      let δ ← parseRat? δ
+      let t ← parseRat? t
+      let deg ← parseBool? deg
+      let all ← parseBool? all
+      let (steps, rest) ← readRatList rest
+      let (cang, rest) ← readRatList rest
+      let (tri, _) ← readRatList rest
+      let rows := (triRows n (n - 1) tri).toArray
+      let ang := angOf rows
+      match op.splitOn ":" with
+      | ["acc"] => some (showRats (accDist steps))
+      | ["index"] => some (showPairs (pairsByIndex n (toFrames δ) all))
+      | ["path"] => some (showPairs (pairsByPath steps δ t all))
+      | ["angle"] => some (showRes (pairsByAngle cang ang n pi δ t deg all))
+      | ["delta", u] => do
+          let u ← parseUnit? u
+          some (showRes (idPairsFromDelta ⟨n, steps, cang, ang, pi⟩ δ u t all))
+      | ["mpath"] =>
+          some (showRat (if all then pathAllMargin (accDist steps) δ t
+                         else reachMargin δ (0 :: steps) 0 big))
+      | ["mangle"] =>
+          let δ' := if deg then deg2rad pi δ else δ
+          let t' := if deg then deg2rad pi t else t
+          some (showRat (if all then angleAllMargin ang n δ' t' else reachMargin δ' cang 0 big))
+      | _ => none
+  | _ => none
+
 end Evo.Drv.C10
